@@ -180,6 +180,7 @@ class Program:
         s.by_key = {}       # ('Type','method') or ('Trait','Type','method') -> Fn
         s.closures = {}     # span string -> Fn
         s._parse(mirtext)
+        s.drop_types = {k[1]: f for k, f in s.by_key.items() if len(k) == 3 and k[0] == 'Drop' and k[2] == 'drop' and f is not None}
     def _parse(s, text):
         lines = text.split('\n')
         s._last_const = None
@@ -1063,7 +1064,9 @@ class PathExec:
             okc = z3.Not(v.b) if neg else v.b
             if s.choose([('ok', okc), ('fail', z3.Not(okc))]) == 'fail': raise Panic(msg)
             return succ
-        if k == 'drop': return st[2]
+        if k == 'drop':
+            if s.prog.drop_types: s.run_drop(fr, st[1])
+            return st[2]
         if k == 'return': return 'RETURN'
         if k == 'unreachable': raise Unsupported('reached `unreachable`')
         raise Unsupported(f'statement {st}')
@@ -1087,6 +1090,26 @@ class PathExec:
         for kx, b in targets:
             if kx == 'otherwise': conds.append(((b, 'o'), z3.And(*others) if others else z3.BoolVal(True)))
         return s.choose(conds)[0]
+
+    # ---- drops: user `impl Drop` bodies run where the (drop-elaborated) MIR drops an initialised place; std types have no observable drop
+    def run_drop(s, fr, place):
+        try: cell = s.place(fr, place)
+        except (Unsupported, KeyError, AttributeError): return
+        s.drop_value(cell, 0)
+    def drop_value(s, cell, depth):
+        v = cell.v
+        if v is None or depth > 12: return
+        if isinstance(v, Agg):
+            if v.lazy is not None: return
+            f = s.prog.drop_types.get(v.ty) if v.ty else None
+            if f is not None: s.run_fn(f, [Ptr(cell, 'ref')]); v = cell.v
+            if isinstance(v, Agg):
+                for c in v.fields: s.drop_value(c, depth + 1)
+        elif isinstance(v, VecV):
+            for c in v.items: s.drop_value(c, depth + 1)
+        elif isinstance(v, Ptr) and v.kind == 'box': s.drop_value(v.cell, depth + 1)
+        elif isinstance(v, MapV):
+            for k in list(v.d): s.drop_value(v.d[k], depth + 1)
 
     # ---- calls
     def call(s, callee, args):
